@@ -72,6 +72,11 @@ def check_case(chk, md, res, model, stream, stats):
                        "stub": res["stub"], "call": res["call"]})
         stats["violations"] += 1
         return True
+    if md["operates_on"] == "dof":
+        # user-supplied DoF kernels: the pinned PSyclone has no code generation for them (outside Valid)
+        stats["dof_kernel_skipped"] += 1
+        chk.case({"md": md, "stream": stream}, nontrivial=False, agreed=True)
+        return False
     if model is not None:
         m = parse_model(model)
         # refusals
